@@ -12,6 +12,7 @@
 (* nothing):                                                               *)
 (*   {"k":"reset"}                                                         *)
 (*   {"k":"attach_req","d":d,"node":n,"lane":l}   {"k":"attach_done","d":d}*)
+(*   {"k":"attach_oneway","d":d}                  send-only client         *)
 (*   {"k":"dl_send","d":d,"msg":m}  {"k":"dl_detach","d":d}                *)
 (*   {"k":"agent_send","node":n,"msg":m}  {"k":"agent_stop","node":n}      *)
 (*   {"k":"peer_send","msg":m}       m = {"kind":"invalid"} for a bad frame*)
@@ -74,6 +75,7 @@ KF_F7_UnlinkedBodyDropped(e) ==
 Event(e) ==
     \/ e.k = "reset" /\ Reset
     \/ e.k = "attach_req" /\ e.d \in Dls /\ e.node \in Nodes /\ e.lane \in Lanes /\ AttachReq(e.d, e.node, e.lane)
+    \/ e.k = "attach_oneway" /\ e.d \in Dls /\ AttachOneWay(e.d)
     \/ e.k = "attach_done" /\ AttachDone(e.d)
     \/ e.k = "dl_send" /\ DlSend(e.d, e.msg)
     \/ e.k = "dl_detach" /\ DlDetach(e.d)
